@@ -2,20 +2,25 @@
 """Builds /verif/seeded/<id>/ (patch.diff, demo.rs, notes.md, meta.json) from seeded_raw + confirm.json + matrix.tsv"""
 import json, os, re, shutil, glob
 ROOT = os.path.dirname(os.path.dirname(os.path.abspath(__file__)))
-RAW = os.path.join(ROOT, "seeded_raw")
 OUT = os.path.join(ROOT, "seeded")
-matrix = {}
-mp = os.path.join(RAW, "matrix.tsv")
-if os.path.exists(mp):
-    for line in open(mp):
-        parts = line.rstrip("\n").split("\t")
-        if len(parts) > 2:
-            matrix[parts[0]] = dict(p.split("=") for p in parts[1:] if "=" in p)
 os.makedirs(OUT, exist_ok=True)
 n = 0
-for d in sorted(glob.glob(os.path.join(RAW, "C*", "[12]"))):
+jobs = []
+for rnd, rawname in ((1, "seeded_raw"), (2, "seeded_raw2")):
+    RAW = os.path.join(ROOT, rawname)
+    matrix = {}
+    mp = os.path.join(RAW, "matrix.tsv")
+    if os.path.exists(mp):
+        for line in open(mp):
+            parts = line.rstrip("\n").split("\t")
+            if len(parts) > 2:
+                matrix[parts[0]] = dict(p.split("=") for p in parts[1:] if "=" in p)
+    for d in sorted(glob.glob(os.path.join(RAW, "C*", "[12]"))):
+        jobs.append((rnd, d, matrix))
+for (rnd, d, matrix) in jobs:
     pid, k = d.split("/")[-2], d.split("/")[-1]
-    sid = "%s-%s" % (pid, k)
+    sid = "%s-%s" % (pid, int(k) + 2 * (rnd - 1))
+    rawid = "%s-%s" % (pid, k)
     cf = os.path.join(d, "confirm.json")
     if not os.path.exists(cf):
         continue
@@ -30,12 +35,13 @@ for d in sorted(glob.glob(os.path.join(RAW, "C*", "[12]"))):
             shutil.copyfile(os.path.join(d, f), os.path.join(o, f))
     notes = open(os.path.join(d, "notes.md")).read() if os.path.exists(os.path.join(d, "notes.md")) else ""
     files = sorted(set(re.findall(r"^\+\+\+ b/(\S+)", open(os.path.join(d, "patch.diff")).read(), re.M)))
-    det = matrix.get(sid, {})
+    det = matrix.get(rawid, {})
     meta = {
         "id": sid,
         "breaks_property": pid,
         "files_touched": files,
         "what_it_needs_to_manifest": (re.search(r"(?is)(needs?|manifest|trigger)[^\n]*\n(.{0,900})", notes).group(0)[:900] if re.search(r"(?is)(needs?|manifest|trigger)", notes) else notes[:600]),
+        "round": rnd,
         "origin": "fresh sub-agent given only the property text and a scratch worktree (nothing from /verif)",
         "confirmed_by": "tools/confirm_seeds.sh in the scratch worktree /tmp/wt_confirm (removed afterwards)",
         "what_i_ran": {
@@ -50,10 +56,13 @@ for d in sorted(glob.glob(os.path.join(RAW, "C*", "[12]"))):
         "undecided": sorted(p for p, rc in det.items() if rc == "2"),
         "caught_by_its_own_property": det.get(pid) == "1" if det else None,
     }
-    if pid == "C02" and k == "2":
+    for extra in glob.glob(os.path.join(d, "patch_before_*.diff")):
+        shutil.copyfile(extra, os.path.join(o, os.path.basename(extra)))
+        meta["note"] = "the sub-agent's patch was written against the tree before the repair commit named in the file name; the same change was re-applied to the repaired function (patch_before_*.diff is the original)"
+    if rnd == 1 and pid == "C02" and k == "2":
         meta["note"] = "the sub-agent's patch was written before the D1 repair of compute_cgn_exp_fP_A; the same one-token change (`+=` -> `=`) was re-applied to the repaired function (patch.orig.diff is the original)"
         if os.path.exists(os.path.join(d, "patch.orig.diff")):
             shutil.copyfile(os.path.join(d, "patch.orig.diff"), os.path.join(o, "patch.orig.diff"))
     json.dump(meta, open(os.path.join(o, "meta.json"), "w"), indent=1)
     n += 1
-print("packed", n, "seeds;", len(matrix), "matrix rows")
+print("packed", n, "seeds")
